@@ -18,6 +18,9 @@ contract(
         "not needs_quotes(value) or (len(result) >= len(value) + 2 and result[0] == 34 and result[len(result) - 1] == 34)",
         "len(result) >= len(value)",
     ],
+    # the two shapes the reader-side contracts below (_parse_string#quoted / #unquoted) take as their inputs, and exactly when
+    options={"asserts": [("quoted-shape-iff-needs-quotes", "=return b'\"' + _escape_value(value) + b'\"'", ["needs_quotes(value)"]),
+                         ("bare-shape-iff-not", "=return _escape_value(value)", ["not needs_quotes(value)"])]},
 )
 contract(
     prop=["C20", "C04"], file=F, func="_parse_string",
@@ -27,6 +30,59 @@ contract(
     loops={1: dict(
         invariant=["0 <= i and i <= len(value_array) + 1", "len(ret) + len(whitespace) <= i and len(ret) + len(whitespace) <= len(value_array)", "len(value_array) <= len(value)"],
         decreases="2 * (len(value_array) - i) + (1 if (i < len(value_array) and value_array[i] == 92) else 0)",
+        types={"ret": "bytearray", "whitespace": "bytearray", "value_array": "bytearray"},
+    )},
+)
+
+# ---- the reader undoes the writer's escaping: quoted form ---------------------------------------------------------------
+# Ghost inputs: plain (the original value; called v in the comments below), E (its escaped form) and a position map epos (uninterpreted, constrained by the
+# precondition): E is v with every special byte replaced by backslash + code, epos(k) the position of v[k]'s image in E.
+# That _escape_value produces such an E for every v is the ASSUMED contract of the replace chain (bounded-checked);
+# what is proved here, for all v: _parse_string(b'"' + E + b'"') == v.
+EPOS = "ufi('epos', {k})"
+ESC_SPEC = [
+    f"{EPOS.format(k='0')} == 0 and len(E) == {EPOS.format(k='len(plain)')}",
+    f"all({EPOS.format(k='k + 1')} == {EPOS.format(k='k')} + (2 if cfg_special(plain[k]) else 1) for k in range(0, len(plain)))",
+    f"all((E[{EPOS.format(k='k')}] == 92 and E[{EPOS.format(k='k')} + 1] == cfg_code(plain[k])) if cfg_special(plain[k]) else E[{EPOS.format(k='k')}] == plain[k] for k in range(0, len(plain)))",
+    f"all(0 <= {EPOS.format(k='k')} and {EPOS.format(k='k')} <= len(E) for k in range(0, len(plain) + 1))",
+    f"all({EPOS.format(k='k')} < len(E) for k in range(0, len(plain)))",
+]
+contract(
+    prop=["C20"], file=F, func="_parse_string#quoted",
+    params={"value": "bytes"}, ghost_params={"plain": "bytes", "E": "bytes"}, returns="bytes",
+    requires=ESC_SPEC + ["len(value) == len(E) + 2 and value[0] == 34 and value[len(value) - 1] == 34",
+                         "all(value[j] == E[j - 1] for j in range(1, len(value) - 1))"],
+    raises={},
+    ensures=["len(result) == len(plain)", "all(result[k] == plain[k] for k in range(0, len(plain)))"],
+    loops={1: dict(
+        invariant=[
+            "len(value_array) == len(value) and all(value_array[k] == value[k] for k in range(0, len(value)))",
+            "len(whitespace) == 0 and len(ret) <= len(plain) and all(ret[j] == plain[j] for j in range(0, len(ret)))",
+            f"(i == 0 and not in_quotes and len(ret) == 0) or (in_quotes and i == 1 + {EPOS.format(k='len(ret)')}) or "
+            f"(not in_quotes and i == len(value_array) and len(ret) == len(plain))",
+        ],
+        decreases="len(value_array) - i",
+        types={"ret": "bytearray", "whitespace": "bytearray", "value_array": "bytearray"},
+    )},
+)
+
+# ---- the same for the unquoted form: _format_string leaves a value unquoted only if it has no leading/trailing whitespace
+# (Python's bytes.strip() set) and none of # ; CR VT FF; for every such value, _parse_string(E) == plain.
+contract(
+    prop=["C20"], file=F, func="_parse_string#unquoted",
+    params={"value": "bytes"}, ghost_params={"plain": "bytes", "E": "bytes"}, returns="bytes",
+    requires=ESC_SPEC + ["len(value) == len(E) and all(value[j] == E[j] for j in range(0, len(value)))",
+                         "not needs_quotes(plain)"],
+    raises={},
+    ensures=["len(result) == len(plain)", "all(result[k] == plain[k] for k in range(0, len(plain)))"],
+    loops={1: dict(
+        invariant=[
+            "len(value_array) == len(value) and all(value_array[k] == value[k] for k in range(0, len(value)))",
+            "not in_quotes and len(ret) + len(whitespace) <= len(plain) and all(ret[j] == plain[j] for j in range(0, len(ret)))",
+            "all(whitespace[j] == 32 and plain[len(ret) + j] == 32 for j in range(0, len(whitespace)))",
+            f"i == {EPOS.format(k='len(ret) + len(whitespace)')}",
+        ],
+        decreases="len(value_array) - i",
         types={"ret": "bytearray", "whitespace": "bytearray", "value_array": "bytearray"},
     )},
 )
